@@ -21,6 +21,7 @@ type staticCase struct {
 	HF       int      // index of the factor of the consistent heuristic
 	HSeed    uint64   // selects the per-node factors of the inconsistent heuristic
 	View     int      // what the value handed to the routines implements (viewFull, viewWeightOnly, viewPlain)
+	View2    int      `json:",omitempty"` // exhaustive part: a second view under which the graph is checked as well
 }
 
 const (
@@ -567,6 +568,35 @@ func (k *ctx) heuristic(mode int) path.Heuristic {
 	}
 }
 
+// usesHopCounts reports whether, in the weight-only view, an all-pairs result
+// holds exactly the uniform-cost distances although these differ from the
+// weighted ones (or a negative weight should have been rejected).
+func (k *ctx) usesHopCounts(ap path.AllShortest) bool {
+	if k.c.View != viewWeightOnly || k.m.n == 0 {
+		return false
+	}
+	m := k.m
+	var arcs []arc
+	for u := 0; u < m.n; u++ {
+		for _, v := range m.out[u] {
+			if !m.und || u < v {
+				arcs = append(arcs, arc{u, v, 1})
+			}
+		}
+	}
+	hop := newModel(m.ids, arcs, m.und).allPairs()
+	differs := m.hasNeg
+	for s := 0; s < m.n; s++ {
+		for t := 0; t < m.n; t++ {
+			if ap.Weight(m.ids[s], m.ids[t]) != hop[s][t] {
+				return false
+			}
+			differs = differs || hop[s][t] != k.D[s][t]
+		}
+	}
+	return differs
+}
+
 func checkStatic(c staticCase) *vk.Failure {
 	k := newCtx(&c)
 	m := k.m
@@ -577,12 +607,18 @@ func checkStatic(c staticCase) *vk.Failure {
 	{
 		var ap path.AllShortest
 		ret, f := outcome("dijkstra-all-paths", "DijkstraAllPaths", m.hasNeg, false, func() { ap = path.DijkstraAllPaths(k.g) })
-		if f != nil {
-			return f
-		}
-		if ret {
-			if f := k.checkAll("dijkstra-all-paths", ap, false); f != nil {
+		if ret && k.usesHopCounts(ap) {
+			// DijkstraAllPaths on a graph that implements path.Weighted but not
+			// graph.Weighted: own key, the remaining routines are still checked
+			k.softFail(vk.Failf("weight-only-graph/dijkstra-all-paths-uses-uniform-cost", "DijkstraAllPaths on a graph implementing path.Weighted (Weight) but not graph.Weighted (WeightedEdge) reports hop counts for every pair instead of the weights that DijkstraFrom, FloydWarshall and JohnsonAllPaths use on the same value"))
+		} else {
+			if f != nil {
 				return f
+			}
+			if ret {
+				if f := k.checkAll("dijkstra-all-paths", ap, false); f != nil {
+					return f
+				}
 			}
 		}
 	}
@@ -709,9 +745,6 @@ func checkStatic(c staticCase) *vk.Failure {
 			if imp == 1 {
 				tg = implicitOf(c.View, k.cg)
 				sfx = "-implicit"
-				if s == t && len(m.out[s]) == 0 {
-					continue // sink source seen through an implicit graph: indistinguishable from absent
-				}
 			}
 			if f := k.checkP2P(sfx, tg, s, t); f != nil {
 				return f
@@ -764,6 +797,9 @@ func (k *ctx) checkP2P(sfx string, tg traverse.Graph, s, t int) *vk.Failure {
 			}
 			if f := judge(name, p, w); f != nil {
 				if s == t && len(m.out[s]) == 0 {
+					if sfx != "" {
+						f = vk.Failf("implicit-sink-self/no-trivial-path", "DijkstraFromTo(%d,%d) on a traverse.Graph, the node has no successors: %s", m.id(s), m.id(t), f.Msg)
+					}
 					k.softFail(f)
 				} else {
 					return f
@@ -884,6 +920,7 @@ func (k *ctx) evidence() {
 	if c.Implicit > 0 {
 		vk.Class("implicit-traverse-graph")
 	}
+	vk.Class(viewNames[c.View%numViews])
 	if c.Cls >= 0 && c.Cls < numClasses {
 		vk.Class("struct=" + classNames[c.Cls])
 	}
@@ -944,6 +981,6 @@ func (k *ctx) evidence() {
 		vk.Class("neg=none")
 	}
 	if tie || multi || zero || m.hasNeg {
-		vk.NonTrivial("static", m.hash, c.Kind, c.Implicit)
+		vk.NonTrivial("static", m.hash, c.Kind, c.Implicit, c.View)
 	}
 }
